@@ -166,3 +166,9 @@ def run(ctx):
         f = prog.fn("canary::" + name)
         ss = _flush.adapter_sites(prog, f)
         ctx.check(len(ss) == 1 and ss[0][1] == want, R, "%s: buffering adapter" % name, str(ss), "engine self-test: %s should have one BufWriter site judged %s, got %s" % (name, want, ss), key="%s|%s" % (R, name))
+    from .rules import errs as _errs
+    for name, want in (("short_read_discarded", False), ("short_read_counted", True), ("swallowed", True)):
+        f = prog.fn("canary::" + name)
+        ss = _errs.short_io_sites(prog, f)
+        ctx.check(len(ss) == 1 and ss[0][3] == want, R, "%s: short read count" % name, str([(x[2], x[3]) for x in ss]), "engine self-test: %s should have one io::Read::read site with count used = %s, got %s" % (
+            name, want, [(x[2], x[3]) for x in ss]), key="%s|%s" % (R, name))
